@@ -209,6 +209,10 @@ class Pbox(NominalValueMixin, ABC):
         if np.any(np.asarray(self.left) > np.asarray(self.right)):
             raise ValueError("Left bound exceeds the right bound at some probability levels")
 
+        if not (np.all(np.isfinite(self.left)) and np.all(np.isfinite(self.right))):
+            # an infinite bound (e.g. an overflowed exp) has no moments; a single one passed the monotonicity test
+            raise ValueError("p-box bounds must be finite")
+
         # pass along moments information
         if (self.mean is None) or (self.var is None):
             self._init_moments()
